@@ -203,6 +203,7 @@ fn run_plan<F: FileSystem + Sync>(out: &mut Outcome, l: &mut Lister<F>, steps: &
     // generated plan
     let mut hs = vec![h0];
     let mut chain_pos: Vec<Option<usize>> = vec![None]; // index in S of the last entry returned per handle
+    let mut probed_end = vec![false; 4]; // per handle: the previous request on it read at the end of the directory
     let mut returned: Vec<usize> = vec![]; // indices of S returned so far (for Resume::Any)
     let mut backward = false;
     let mut switches = 0;
@@ -254,20 +255,27 @@ fn run_plan<F: FileSystem + Sync>(out: &mut Outcome, l: &mut Lister<F>, steps: &
         } else {
             256 + st.slack as u32
         };
-        let Some(v) = l.read(out, hs[hi], off, size, st.plus) else { return (false, false) };
+        let Some(mut v) = l.read(out, hs[hi], off, size, st.plus) else { return (false, false) };
         replies += 1;
+        if next < s.len() && v.is_empty() && probed_end[hi] {
+            out.class("dir:retry-after-end-probe");
+            let Some(v2) = l.read(out, hs[hi], off, size, st.plus) else { return (false, false) };
+            v = v2;
+        }
+        if next < s.len() {
+            probed_end[hi] = false;
+        }
         if next >= s.len() {
             if !v.is_empty() {
                 out.fail("dir/not-empty-at-end", format!("resuming after the last entry returned {} entries", v.len()));
             }
             // Host quirk (ext4 on this kernel, reproduced with bare lseek/getdents64): after
             // lseek(fd, <end-of-directory position>) + getdents64 the NEXT lseek + getdents64 on that
-            // descriptor returns nothing once. A throw-away read clears it; its result is ignored.
+            // descriptor can return nothing once. It is not papered over in advance (that would also
+            // reset the server's position cache); an empty reply directly after such a probe is
+            // retried once below, and only a second empty reply counts.
             if check_attrs && !s.is_empty() {
-                let before = l.refs.clone();
-                let _ = l.read(&mut Outcome::default(), hs[hi], 0, 65536, false);
-                l.refs = before;
-                chain_pos[hi] = None;
+                probed_end[hi] = true;
             }
             continue;
         }
